@@ -60,6 +60,14 @@ type DevCfg struct {
 	ErrAt       int  `json:"err_at"`
 	ErrKind     int  `json:"err_kind,omitempty"`
 	ErrWithData bool `json:"err_with_data,omitempty"` // deliver (n>0, err) instead of (n,nil),(0,err)
+
+	// Helper: the bytes are written into the caller's buffer by ANOTHER
+	// goroutine (an entropy daemon, a hardware-token driver) while the
+	// goroutine that called Read goes deep enough into its own code for the
+	// runtime to move its stack; Read returns when the helper is done.  Legal
+	// for an io.Reader; it matters to a caller whose buffer is not where the
+	// runtime believes it is.
+	Helper bool `json:"helper,omitempty"`
 }
 
 // Healthy returns the configuration of a healthy device.
@@ -79,12 +87,36 @@ type Device struct {
 	Log       []ReadRec
 	Bytes     []byte // everything delivered so far
 	Yield     func() // optional: called at the start of every Read (scheduler hook)
+	StackSink int    // keeps growStack's result alive
 
 	chunkPos int
 	failed   bool
 	pend     bool // error pending delivery on the next call
 	prng     []byte
 }
+
+// MaxEmptyRun is the longest run of consecutive reads so far that returned
+// (0, nil) although bytes were asked for.
+func (d *Device) MaxEmptyRun() int {
+	best, cur := 0, 0
+	for _, r := range d.Log {
+		if r.Req > 0 && r.N == 0 && r.Err == 0 {
+			if cur++; cur > best {
+				best = cur
+			}
+		} else {
+			cur = 0
+		}
+	}
+	return best
+}
+
+// PatienceBound: a caller of a reader may lose patience with one that keeps
+// answering (0, nil) - bufio gives up with io.ErrNoProgress after 100 such
+// reads - and fail with an error.  Up to this many in a row every signer
+// must sit through (the io package's own loops do); beyond it, giving up
+// WITH AN ERROR is counted, not reported.
+const PatienceBound = 3
 
 // NewDevice returns a device for cfg.
 func NewDevice(cfg DevCfg) *Device { return &Device{Cfg: cfg} }
@@ -179,10 +211,27 @@ func (d *Device) read(p []byte) (int, error) {
 			hitErr = true
 		}
 	}
-	for i := 0; i < want; i++ {
-		b := d.byteAt(d.Delivered + i)
-		p[i] = b
-		d.Bytes = append(d.Bytes, b)
+	if d.Cfg.Helper && want > 0 {
+		data := make([]byte, want)
+		for i := range data {
+			data[i] = d.byteAt(d.Delivered + i)
+		}
+		d.Bytes = append(d.Bytes, data...)
+		start, done := make(chan struct{}), make(chan struct{})
+		go func(dst []byte) {
+			<-start
+			copy(dst, data)
+			close(done)
+		}(p[:want])
+		d.StackSink += growStack(192)
+		close(start)
+		<-done
+	} else {
+		for i := 0; i < want; i++ {
+			b := d.byteAt(d.Delivered + i)
+			p[i] = b
+			d.Bytes = append(d.Bytes, b)
+		}
 	}
 	d.Delivered += want
 	if hitErr {
@@ -193,6 +242,31 @@ func (d *Device) read(p []byte) (int, error) {
 		d.pend = true
 	}
 	return want, nil
+}
+
+// growStack uses about depth KiB of stack below its caller: on a goroutine
+// whose stack is smaller than that the runtime allocates a larger one and
+// moves the frames (and every pointer it knows of) over.
+//
+//go:noinline
+func growStack(depth int) int {
+	var pad [1024]byte
+	pad[depth%len(pad)] = byte(depth)
+	if depth == 0 {
+		return int(pad[0])
+	}
+	return growStack(depth-1) + int(pad[depth%len(pad)])
+}
+
+// OnFreshStack runs f on a new goroutine (whose stack starts at the minimum
+// size, so that a Helper device's Read is certain to move it) and waits.
+func OnFreshStack(f func()) {
+	done := make(chan struct{})
+	go func() {
+		defer close(done)
+		f()
+	}()
+	<-done
 }
 
 // Summary is a short human-readable description.
@@ -209,6 +283,9 @@ func (c DevCfg) Summary() string {
 	s := pay
 	if len(c.Chunks) > 0 {
 		s += fmt.Sprintf(" chunks=%v", c.Chunks)
+	}
+	if c.Helper {
+		s += " filled-by-helper-goroutine+stack-move"
 	}
 	if c.ErrAt >= 0 {
 		k := [...]string{"?", "EOF", "ErrUnexpectedEOF", "custom", "temporary"}[c.ErrKind]
